@@ -29,6 +29,7 @@ def twin(sc):
     for p in t["programs"]:
         for m in p["cbs"].values():
             m.pop("async", None)
+            m.pop("awaitable", None)
     for rules in t["beh"].values():
         for r in rules:
             r.pop("pre", None)
@@ -97,6 +98,61 @@ class C05(Campaign):
                         d = rnd.choice(gen.DELAYS)
                         if d is not None:
                             r["post"] = d
+        # plain functions that return an awaitable (the engine awaits what a callback returns)
+        for c, m in sorted(prog["cbs"].items()):
+            if not m.get("async") and m["group"] not in ("cond", "unless") and rnd.random() < 0.15:
+                m["awaitable"] = True
+        # listeners attached after construction (both twins alike); the machine stays on the async
+        # engine through its construction-time providers
+        ls = list(prog["listeners"])
+        rnd.shuffle(ls)
+        from .storage import names_ok
+
+        late = []
+        for role in ls:
+            rest = [x for x in prog["listeners"] if x != role and x not in late]
+            ctor_roles = ["machine", "model"] + rest
+            keeps_async = any(m.get("async") for c, m in prog["cbs"].items() if c.split(".", 1)[0] in ctor_roles)
+            uses_expr = any(not e.isidentifier() for t in prog["trans"]
+                            for e in list(t.get("cond", [])) + list(t.get("unless", [])))
+            provides_unless = any(c.split(".", 1)[1] in t.get("unless", []) for t in prog["trans"]
+                                  for c in prog["cbs"] if c.startswith(role + "."))
+            if rnd.random() < 0.3 and names_ok(prog, ctor_roles) and keeps_async and not uses_expr \
+                    and not provides_unless:
+                late.append(role)
+        if late:
+            new = sc["ops"][0]
+            new["listeners"] = [x for x in new.get("listeners", []) if x not in late]
+            out = [new]
+            pending = list(late)
+            for op in sc["ops"][1:]:
+                if pending and rnd.random() < 0.4:
+                    out.append({"op": "add_listener", "inst": "A", "listeners": [pending.pop()]})
+                out.append(op)
+            for role in pending:
+                out.append({"op": "add_listener", "inst": "A", "listeners": [role]})
+            shift = {}
+            j = 0
+            for i_, op in enumerate(out):
+                if op["op"] != "add_listener":
+                    shift[j] = i_
+                    j += 1
+            for rules in sc["beh"].values():
+                for r in rules:
+                    if r.get("ep") is not None:
+                        r["ep"] = shift.get(r["ep"], r["ep"])
+            for c, g in sc["gv"].items():
+                g2 = []
+                j = 0
+                for op in out:
+                    if op["op"] == "add_listener":
+                        g2.append(g[min(j, len(g) - 1)])
+                    else:
+                        g2.append(g[min(j, len(g) - 1)])
+                        j += 1
+                sc["gv"][c] = g2
+            sc["ops"] = out
+            sc["late_listeners"] = late
         sc["driver"] = rnd.choice(["sync", "inloop", "inloop", "threads_in_turn"])
         sc["perm_seed"] = rnd.randrange(1 << 30)
         return sc
@@ -145,6 +201,10 @@ class C05(Campaign):
         c["fault.async_guard_start_permutations"] = st.get("perms", 0)
         c["fault.raises"] = st.get("raises", 0)
         c["probe.driver_" + sc.get("driver", "sync")] = 1
+        if sc.get("late_listeners"):
+            c["fault.late-listener (machine already on the async engine)"] = len(sc["late_listeners"])
+        if any(m_.get("awaitable") for m_ in sc["programs"][0]["cbs"].values()):
+            c["probe.plain_function_returning_awaitable"] = 1
         prog = sc["programs"][0]
         if any(not e.isidentifier() for t in prog["trans"] for e in t.get("cond", [])):
             c["probe.guard_expressions"] = 1
